@@ -21,7 +21,7 @@ ProcOK(g, tr, tid) ==
 
 ReqVerdict(o, r) ==
   LET obj == ObjOf(r.cfg)
-      d == o.dump
+      d == IF "dump" \in DOMAIN r THEN r.dump ELSE o.dump      \* a later request may be about ANOTHER dump (no residue of the first)
   IN IF "err" \in DOMAIN r THEN "raised"
      ELSE IF r.after # r.cfg THEN "settings-changed"
      ELSE IF r.op = "kevents" THEN
